@@ -1,13 +1,20 @@
 #!/usr/bin/env python3
-"""Translator: regenerates lean/Autd3/Gen/*.lean from /repo's working tree (see DESIGN 2.2a).
-Writes a file only when its content changed so that lake's incremental build stays cheap.
-Exits non-zero with `translator-unsupported: …` on anything outside the supported subset."""
+"""Translator: regenerates lean/Autd3/Gen/*.lean from the repo's working tree (DESIGN 2.2a).
+Runs every plug-in tools/gen.d/*.py (`generate(repo, emit)`). A file is rewritten only when its
+content changed so that lake's incremental build stays cheap. Exits non-zero with
+`translator-unsupported: …` on anything outside a plug-in's supported subset (fails closed)."""
+import glob
+import importlib.util
 import os
 import sys
 
 VERIF = os.path.dirname(os.path.dirname(os.path.abspath(__file__)))
 GEN = os.path.join(VERIF, "lean", "Autd3", "Gen")
 REPO = os.environ.get("VERIF_REPO", "/repo")
+
+
+class Unsupported(Exception):
+    pass
 
 
 def emit(name, body):
@@ -19,7 +26,18 @@ def emit(name, body):
 
 
 def main():
-    return 0
+    sys.path.insert(0, os.path.join(VERIF, "tools"))
+    rc = 0
+    for path in sorted(glob.glob(os.path.join(VERIF, "tools", "gen.d", "*.py"))):
+        spec = importlib.util.spec_from_file_location(os.path.basename(path)[:-3], path)
+        mod = importlib.util.module_from_spec(spec)
+        try:
+            spec.loader.exec_module(mod)
+            mod.generate(REPO, emit)
+        except Exception as e:  # fail closed
+            print(f"translator-unsupported: {os.path.basename(path)}: {type(e).__name__}: {e}")
+            rc = 1
+    return rc
 
 
 if __name__ == "__main__":
